@@ -61,19 +61,39 @@ def rule_cmp(ctx):
                     why = 'uses operator %s' % type(c.ops[0]).__name__
                 elif not _is_zeroth(c.left, 'self'):
                     why = 'left operand `%s` is not the zeroth coefficient of self' % left
-                elif not (_is_zeroth(c.comparators[0], None) or isinstance(c.comparators[0], ast.Name)):
-                    why = 'right operand `%s` is neither a zeroth coefficient nor the raw operand' % right
                 else:
-                    ok = True
-                    if isinstance(c.comparators[0], ast.Name):
-                        # a rebinding of the operand before the comparison must select its zeroth coefficient
-                        nm = c.comparators[0].id
-                        for st in walk_no_nested(fi.node):
-                            if isinstance(st, (ast.Assign, ast.AugAssign)) and any(
-                                    isinstance(t, ast.Name) and t.id == nm for t in (st.targets if isinstance(st, ast.Assign) else [st.target])):
-                                if not (isinstance(st, ast.Assign) and _is_zeroth(st.value, nm)):
-                                    ok = False
-                                    why = 'operand `%s` is rebound by `%s`, which is not its zeroth coefficient' % (nm, norm(st))
+                    params = [p_ for p_ in fi.params if p_ != 'self']
+
+                    def assigns_to(nm):
+                        return [st for st in walk_no_nested(fi.node) if isinstance(st, (ast.Assign, ast.AugAssign)) and any(
+                            isinstance(t, ast.Name) and t.id == nm for t in (st.targets if isinstance(st, ast.Assign) else [st.target]))]
+
+                    def right_ok(e, depth=0):
+                        """-> None if `e` is the zeroth coefficient of the other operand / the raw operand, else the reason"""
+                        if depth > 4:
+                            return 'operand `%s` not resolved' % norm(e)
+                        if isinstance(e, ast.IfExp):
+                            return right_ok(e.body, depth + 1) or right_ok(e.orelse, depth + 1)
+                        if _is_zeroth(e, None):
+                            if e.value.value.id == 'self':
+                                return 'right operand `%s` is a coefficient of self' % norm(e)
+                            return None
+                        if isinstance(e, ast.Name) and e.id in params:
+                            # a rebinding of the operand before the comparison must select its zeroth coefficient
+                            for st in assigns_to(e.id):
+                                v_ = st.value if isinstance(st, ast.Assign) else None
+                                arms = [v_.body, v_.orelse] if isinstance(v_, ast.IfExp) else [v_]
+                                if not all(a_ is not None and (_is_zeroth(a_, e.id) or norm(a_) == e.id) for a_ in arms):
+                                    return 'operand `%s` is rebound by `%s`, which is not its zeroth coefficient' % (e.id, norm(st))
+                            return None
+                        if isinstance(e, ast.Name):
+                            ds = assigns_to(e.id)
+                            if len(ds) == 1 and isinstance(ds[0], ast.Assign):
+                                return right_ok(ds[0].value, depth + 1)
+                            return 'right operand `%s` has %d definitions' % (e.id, len(ds))
+                        return 'right operand `%s` is neither a zeroth coefficient nor the raw operand' % norm(e)
+                    why = right_ok(c.comparators[0])
+                    ok = why is None
             if ok:
                 r.ok(construct='%s:%s' % (name, norm(ret)), sample='UTPM.%s: `%s`' % (name, norm(ret)))
             else:
@@ -582,6 +602,16 @@ def rule_kinds(ctx):
             continue
         br = _branches(fi)
         kinds = [_kind_of_test(t) for t, _ in br]
+        # `if isinstance(rhs, ndarray): if rhs.dtype == object: raise ...; <ndarray code>` is the object branch followed by the ndarray branch
+        br2, kinds2 = [], []
+        for (t_, body_), k_ in zip(br, kinds):
+            if k_ == 'ndarray' and body_ and isinstance(body_[0], ast.If) and not body_[0].orelse and _kind_of_test(body_[0].test) == 'object' \
+                    and isinstance(body_[0].body[-1], (ast.Raise, ast.Return)):
+                br2.append((body_[0].test, body_[0].body)); kinds2.append('object')
+                br2.append((t_, body_[1:])); kinds2.append('ndarray')
+            else:
+                br2.append((t_, body_)); kinds2.append(k_)
+        br, kinds = br2, kinds2
         if kinds != ['scalar', 'object', 'ndarray', 'utpm']:
             r.note('UTPM.%s: operand-kind branches are not in the form scalar/object/ndarray/UTPM (%s); only the evidence rules apply' % (name, kinds))
         operand = fi.params[1]
@@ -1503,6 +1533,15 @@ def rule_shape_arg(ctx):
                     isinstance(b, ast.Assign) and norm(b.targets[0]) == 'shape' and isinstance(b.value, ast.Tuple) and [norm(e) for e in b.value.elts] == ['shape']
                     for b in n.body):
                 wraps.append(n)
+            # `shape = (shape,) if numpy.isscalar(shape) else shape`
+            if isinstance(n, ast.Assign) and norm(n.targets[0]) == 'shape' and isinstance(n.value, ast.IfExp) and n.lineno < concat[0].lineno:
+                ie = n.value
+                def _wrapped(e):
+                    return isinstance(e, ast.Tuple) and [norm(x_) for x_ in e.elts] == ['shape']
+                if _wrapped(ie.body) and norm(ie.orelse) == 'shape':
+                    wraps.append(ast.copy_location(ast.If(test=ie.test, body=[n], orelse=[]), n))
+                elif _wrapped(ie.orelse) and norm(ie.body) == 'shape':
+                    wraps.append(ast.copy_location(ast.If(test=ast.UnaryOp(op=ast.Not(), operand=ie.test), body=[n], orelse=[]), n))
         conv = [n for n in walk_no_nested(fi.node) if isinstance(n, ast.Assign) and norm(n.targets[0]) == 'shape' and isinstance(n.value, ast.Call)
                 and (dotted_name(n.value.func) or '') in ('tuple',) and n.lineno < concat[0].lineno]
         key = name + ':scalar-shape'
@@ -1904,22 +1943,38 @@ def rule_alloc(ctx):
     m = ctx.model
     for name in ('zeros', 'ones'):
         fi = m.func('algopy.globalfuncs', name)
-        br = [n for n in walk_no_nested(fi.node) if isinstance(n, ast.If)]
+        vp = fi.value_params()
+        shape_p = vp[0] if vp else 'shape'
+        dtype_p = vp[1] if len(vp) > 1 else 'dtype'
         body = None
         for n in ast.walk(fi.node):
-            if isinstance(n, ast.If) and norm(n.test) == 'isinstance(dtype, UTPM)':
+            if isinstance(n, ast.If) and norm(n.test) in ('isinstance(%s, UTPM)' % dtype_p, 'isinstance(%s, algopy.UTPM)' % dtype_p):
                 body = n.body
         if body is None:
             r.unknown(fi.site(), 'UTPM-dtype branch not found')
             continue
-        txt = ' ; '.join(norm(s) for s in body)
+        txt = ' ; '.join(norm(s_) for s_ in body)
+        holder = ast.Module(body=body, type_ignores=[])
+        # names bound to (D, P) of the dtype object
+        dp = None
+        for st in ast.walk(holder):
+            if isinstance(st, ast.Assign) and len(st.targets) == 1 and isinstance(st.targets[0], ast.Tuple) and len(st.targets[0].elts) == 2 \
+                    and all(isinstance(e, ast.Name) for e in st.targets[0].elts) \
+                    and norm(st.value) in ('%s.data.shape[:2]' % dtype_p, 'numpy.shape(%s.data)[:2]' % dtype_p):
+                dp = [e.id for e in st.targets[0].elts]
         probs = []
-        if 'D, P = dtype.data.shape[:2]' not in txt:
-            probs.append('(D, P) is not taken from dtype.data.shape[:2]')
-        if 'numpy.zeros((D, P) + shape' not in txt:
+        if dp is None:
+            probs.append('(D, P) is not taken from %s.data.shape[:2]' % dtype_p)
+        allocs = [c for c in ast.walk(holder) if isinstance(c, ast.Call) and (dotted_name(c.func) or '') in ('numpy.zeros', 'numpy.empty', 'numpy.ones', 'numpy.full')]
+        good = [c for c in allocs if c.args and isinstance(c.args[0], ast.BinOp) and isinstance(c.args[0].op, ast.Add)
+                and isinstance(c.args[0].left, ast.Tuple) and dp is not None and [norm(e) for e in c.args[0].left.elts] == dp
+                and norm(c.args[0].right) in (shape_p, 'tuple(%s)' % shape_p)]
+        if not good or len(good) != len(allocs):
             probs.append('the coefficient array is not allocated as numpy.zeros((D, P) + shape, ...)')
+        elif dotted_name(good[0].func) != 'numpy.zeros':
+            probs.append('the coefficient array is allocated with `%s`, not with zeros' % dotted_name(good[0].func))
         if name == 'ones':
-            st = [s for s in body if isinstance(s, ast.Assign) and isinstance(s.targets[0], ast.Subscript)]
+            st = [s_ for s_ in ast.walk(holder) if isinstance(s_, ast.Assign) and isinstance(s_.targets[0], ast.Subscript)]
             if not (len(st) == 1 and _first_index_is_zero(st[0].targets[0]) and isinstance(st[0].value, ast.Constant) and st[0].value.value == 1):
                 probs.append('ones does not set exactly coefficient 0 to 1')
         if probs:
@@ -1929,8 +1984,20 @@ def rule_alloc(ctx):
             r.ok(construct=name, sample='%s(UTPM dtype): %s' % (name, txt[:100]))
     for name, tgt in (('zeros_like', 'zeros'), ('ones_like', 'ones')):
         fi = m.func('algopy.globalfuncs', name)
-        if 'return %s(a.shape, dtype=dtype, order=order)' % tgt in norm(fi.node):
-            r.ok(construct=name, sample='%s delegates to %s(a.shape, dtype=dtype, order=order)' % (name, tgt))
+        vp = fi.value_params()
+        a_p = vp[0] if vp else 'a'
+        rets = [n for n in walk_no_nested(fi.node) if isinstance(n, ast.Return)]
+        ok = bool(rets)
+        for ret in rets:
+            c = ret.value
+            if not (isinstance(c, ast.Call) and isinstance(c.func, ast.Name) and c.func.id == tgt):
+                ok = False
+                continue
+            shp = c.args[0] if c.args else next((k.value for k in c.keywords if k.arg == 'shape'), None)
+            if shp is None or norm(shp) not in ('%s.shape' % a_p, 'numpy.shape(%s)' % a_p):
+                ok = False
+        if ok:
+            r.ok(construct=name, sample='%s delegates to %s(%s.shape, ...)' % (name, tgt, a_p))
         else:
             r.bad(Finding('C13.alloc', _f(fi), name, '%s does not delegate to %s with the array\'s shape' % (name, tgt), fi.file, fi.lineno))
     r.floor = 4
